@@ -65,6 +65,7 @@ Proof.
   { apply Bool.not_true_is_false. intro E. apply existsb_exists in E as (u & _ & E). now rewrite HL in E. }
   rewrite Hd, HE. rewrite !HL.
   destruct (o_kind x); [| |repeat eexists; reflexivity];
+  (destruct (negb (h_other_types_run g) && negb ((f_type f =? T_call) || (f_type f =? T_post))); [repeat eexists; reflexivity|]);
   (destruct (f_act f =? A_register);
    [destruct (cls _ (f_act f) (f_pl f)); try (repeat eexists; reflexivity);
     destruct (negb (oid_ok x oid)); try (repeat eexists; reflexivity);
@@ -385,9 +386,9 @@ Proof.
   { unfold oid_ok, with_mb. cbn [o_id]. destruct Ho as [->| ->]; [reflexivity|rewrite N.eqb_refl; apply orb_true_r]. }
   assert (Hset : forall (z : obj), set_nth (set_nth os o (with_mb y [(List.length cs, f)])) o z = set_nth os o z).
   { intro z. clear. revert o. induction os as [|w os IH]; intros [|o]; cbn; try reflexivity. now rewrite IH. }
-  unfold obj_exec. rewrite Ha. change (o_kind (with_mb y [(List.length cs, f)])) with (o_kind y).
+  unfold obj_exec. rewrite Ha, Ht. change (o_kind (with_mb y [(List.length cs, f)])) with (o_kind y).
   destruct (o_kind y) eqn:Ekind; [| |contradiction];
-    (cbn [A_metaObject A_register A_unregister N.eqb Pos.eqb]; rewrite Hc, Hok; unfold answers, reply; rewrite Ht, Ha;
+    (cbn [T_call T_post A_metaObject A_register A_unregister N.eqb Pos.eqb orb negb andb]; rewrite ?andb_false_r; cbn [A_metaObject A_register A_unregister N.eqb Pos.eqb]; rewrite Hc, Hok; unfold answers, reply; rewrite Ht, Ha;
      cbn [T_call T_post N.eqb Pos.eqb map lock_conn do_writes conns mkst];
      rewrite nth_error_app_last, can_write_clean; cbn [with_out conn0 c_open c_in c_q c_proc c_cons c_hlock c_out c_got app do_writes];
      rewrite set_nth_app_last; cbn [o_gor with_mb o_svc o_id o_kind o_alive o_table o_mb tl]; rewrite Hset; unfold mkst, with_mb, conn_out; cbn [closers]; rewrite Ekind, Hg; reflexivity).
@@ -495,6 +496,8 @@ Proof.
     assert (Al2 : o_alive z' = false) by (destruct rest, (o_gor z'); cbn in Al'; exact Al').
     unfold obj_exec in Ee. destruct (o_kind x) eqn:Ek;
       [| |injection Ee as <- _ _; cbn in Al2; congruence];
+      (destruct (negb (h_other_types_run g) && negb ((f_type f =? T_call) || (f_type f =? T_post)));
+       [injection Ee as <- _ _; cbn in Al2; congruence|]);
       (destruct (f_act f =? A_register) eqn:E0;
        [destruct (cls _ (f_act f) (f_pl f)); try (injection Ee as <- _ _; cbn in Al2; congruence);
         destruct (negb (oid_ok x oid)); try (injection Ee as <- _ _; cbn in Al2; congruence);
@@ -524,7 +527,8 @@ Proof.
 Qed.
 
 (* ---- refutations: the pinned behaviours ---- *)
-Definition hcfg_of (d u w r : bool) : hcfg := {| h_dup_relock := d; h_uid_global := u; h_write_blocks := w; h_removed_answers := r |}.
+Definition hcfg_of (d u w r : bool) : hcfg :=
+  {| h_dup_relock := d; h_uid_global := u; h_write_blocks := w; h_removed_answers := r; h_other_types_run := true |}.
 Definition hfr (t s o a i pl : N) : hframe := {| f_type := t; f_svc := s; f_obj := o; f_act := a; f_id := i; f_pl := pl |}.
 Definition generic_obj : obj := mk_obj 2 1 KGeneric.
 
